@@ -468,7 +468,7 @@ fn models(tier: &str) -> Vec<M> {
     if tier == "quick" {
         vec![M { depth: 5, cfg: WorldCfg::default(), pairs: true }, M { depth: 4, cfg: WorldCfg { retention: 1, tree_ext: false, ..Default::default() }, pairs: false }]
     } else {
-        vec![M { depth: 6, cfg: WorldCfg::default(), pairs: true }, M { depth: 6, cfg: WorldCfg { retention: 1, tree_ext: false, encrypt_handshake: true, ..Default::default() }, pairs: true }]
+        vec![M { depth: 6, cfg: WorldCfg::default(), pairs: true }, M { depth: 6, cfg: WorldCfg { retention: 1, tree_ext: false, encrypt_handshake: true, padding: 1, ..Default::default() }, pairs: true }]
     }
 }
 
